@@ -14,6 +14,18 @@ From Coq Require Import List NArith ZArith Bool Strings.Byte.
 From HV Require Import Lib.Dec.
 Import ListNotations.
 
+(* The tree under test may carry the repairs proposed in hooks/c14-fix-*.patch.  Each is one flag;
+   [as_found] is the code as pinned, the check passes the flags it detects in the sources and
+   the correspondence run tells whether they are right. *)
+Record variant := mk_variant {
+  v_resetbuffer_off : bool;      (* Encoder.ResetBuffer also sets enc.off = 0 *)
+  v_free_writer : bool;          (* FreeEncoder sets encoder.Writer = nil *)
+  v_reset_refer_always : bool;   (* Decoder.Reset resets the reference list in simple mode too *)
+  v_resetreader_drops : bool     (* Decoder.ResetReader drops dec.buf when no reader was attached *)
+}.
+Definition as_found : variant := mk_variant false false false false.
+Definition all_fixed : variant := mk_variant true true true true.
+
 (* ===================================================================================== *)
 (* 1. generic encoder                                                                    *)
 (* ===================================================================================== *)
@@ -23,6 +35,7 @@ Section Encoder.
 Variables V RT CT ER WR : Type.
 Variable rt0 : RT.     (* encoderRefer after Reset() (observationally the zero value) *)
 Variable ct0 : CT.     (* empty class table, last = 0 *)
+Variable vr : variant.
 
 Record ser_res := mk_ser { sr_refer : RT; sr_cls : CT; sr_out : list byte; sr_err : option ER }.
 
@@ -110,7 +123,7 @@ Definition reset (s : enc) : enc :=
 (*  func (enc *Encoder) ResetBuffer() *Encoder { enc.buf = enc.buf[:0]; enc.Error = nil; return enc }
     -- enc.off and enc.Writer are left as they are *)
 Definition reset_buffer (s : enc) : enc :=
-  {| e_buf := []; e_off := e_off s; e_simple := e_simple s; e_refer := e_refer s; e_cls := e_cls s;
+  {| e_buf := []; e_off := if v_resetbuffer_off vr then 0 else e_off s; e_simple := e_simple s; e_refer := e_refer s; e_cls := e_cls s;
      e_writer := e_writer s; e_err := None |}.
 
 (*  func (enc *Encoder) Simple(simple bool) *Encoder { enc.simple = simple; enc.Reset(); return enc } *)
@@ -145,7 +158,10 @@ Fixpoint enc_run (s : enc) (ops : list eop) : enc * list eobs :=
   end.
 
 (*  func FreeEncoder(encoder *Encoder) { encoderPool.Put(encoder.Simple(false).ResetBuffer()) } *)
-Definition free_enc (s : enc) : enc := reset_buffer (set_simple false s).
+Definition free_enc (s : enc) : enc :=
+  let s1 := reset_buffer (set_simple false s) in
+  {| e_buf := e_buf s1; e_off := e_off s1; e_simple := e_simple s1; e_refer := e_refer s1; e_cls := e_cls s1;
+     e_writer := if v_free_writer vr then None else e_writer s1; e_err := e_err s1 |}.
 
 (* behaves like a brand-new pooled encoder for every subsequent sequence of operations *)
 Definition enc_fresh_equiv (s : enc) : Prop :=
@@ -211,6 +227,7 @@ Section Decoder.
 Variables DT DV DR DC ER : Type.
 Variable dr0 : DR.
 Variable dc0 : DC.
+Variable vr : variant.
 
 Record des_res := mk_des {
   ds_refer : DR; ds_cls : DC; ds_err : option ER; ds_rest : list byte; ds_val : DV }.
@@ -276,7 +293,7 @@ Inductive dobs :=
         if !dec.IsSimple() { dec.refer.Reset() } ; dec.ref = dec.ref[:0] ; return dec } *)
 Definition dreset (s : dec) : dec :=
   {| d_in := d_in s; d_buf := d_buf s; d_from_reader := d_from_reader s; d_simple := d_simple s;
-     d_refer := if d_simple s then d_refer s else dr0; d_cls := dc0; d_err := d_err s;
+     d_refer := if d_simple s && negb (v_reset_refer_always vr) then d_refer s else dr0; d_cls := dc0; d_err := d_err s;
      d_opts := d_opts s |}.
 
 Definition dset_simple (b : bool) (s : dec) : dec :=
@@ -327,7 +344,9 @@ Definition dec_step (s : dec) (o : dop) : dec * dobs :=
           d_refer := d_refer s; d_cls := d_cls s; d_err := d_err s; d_opts := d_opts s |}, ODUnit)
   | DResetReader input =>
       (* dec.reader = reader; head = 0; tail = 0  (dec.buf is kept, whoever it belongs to) *)
-      ({| d_in := input; d_buf := d_buf s; d_from_reader := true; d_simple := d_simple s;
+      ({| d_in := input;
+          d_buf := if v_resetreader_drops vr && negb (d_from_reader s) then BufNil else d_buf s;
+          d_from_reader := true; d_simple := d_simple s;
           d_refer := d_refer s; d_cls := d_cls s; d_err := d_err s; d_opts := d_opts s |}, ODUnit)
   | DResetBuffer => (dreset_buffer s, ODUnit)
   | DSetOpts o' =>
@@ -763,10 +782,12 @@ Definition cser (top simple : bool) (r : crefer) (c : ccls) (v : val) : ser_res 
 Definition cenc_t := enc crefer ccls cerr N.
 Definition c_new_enc : cenc_t := new_enc crefer ccls cerr N crefer0 ccls0.
 Definition c_new_encoder (w : option N) : cenc_t := new_encoder crefer ccls cerr N crefer0 ccls0 w.
-Definition c_enc_step := enc_step val crefer ccls cerr N crefer0 ccls0 cser.
-Definition c_enc_run := enc_run val crefer ccls cerr N crefer0 ccls0 cser.
-Definition c_free_enc := free_enc crefer ccls cerr N crefer0 ccls0.
-Definition c_esessions_run := esessions_run val crefer ccls cerr N crefer0 ccls0 cser.
+Definition cv_enc_step (vr : variant) := enc_step val crefer ccls cerr N crefer0 ccls0 vr cser.
+Definition cv_free_enc (vr : variant) := free_enc crefer ccls cerr N crefer0 ccls0 vr.
+Definition c_enc_step := cv_enc_step as_found.
+Definition c_enc_run := enc_run val crefer ccls cerr N crefer0 ccls0 as_found cser.
+Definition c_free_enc := cv_free_enc as_found.
+Definition c_esessions_run := esessions_run val crefer ccls cerr N crefer0 ccls0 as_found cser.
 
 (* --- decoder side: interface{} destinations -------------------------------------------- *)
 Inductive dval :=
@@ -901,7 +922,11 @@ Fixpoint cdec (fuel : nat) (st : dst) : dval * dst :=
           let idx := length (ds_r st2) in
           let st3 := add_ref st2 None in
           let '(vs, st4) := cdec_elems (cdec f) (Z.to_nat n) st3 in
-          if ds_panic st4 then (DPanic, st4)
+          if ds_panic st4 then
+            (* the slice was grown to n nil elements before the first element was read and stays registered *)
+            let done := removelast vs in
+            let part := DList (done ++ repeat DNil (Z.to_nat n - length done)) in
+            (DPanic, if simple then st4 else mk_dst (set_nth idx (Some part) (ds_r st4)) (ds_e st4) (ds_i st4) true)
           else
             let st5 := skip st4 in
             let v := DList vs in
@@ -929,10 +954,12 @@ Definition cdec_t := dec drefs unit cerr.
 Definition c_new_dec : cdec_t := new_dec drefs unit cerr [] tt.
 Definition c_new_decoder (input : bytes) : cdec_t := new_decoder drefs unit cerr [] tt input.
 Definition c_new_decoder_from_reader (input : bytes) : cdec_t := new_decoder_from_reader drefs unit cerr [] tt input.
-Definition c_dec_step := dec_step unit dval drefs unit cerr [] tt cdes.
-Definition c_dec_run := dec_run unit dval drefs unit cerr [] tt cdes.
-Definition c_free_dec := free_dec drefs unit cerr [] tt.
-Definition c_dsessions_run := dsessions_run unit dval drefs unit cerr [] tt cdes.
+Definition cv_dec_step (vr : variant) := dec_step unit dval drefs unit cerr [] tt vr cdes.
+Definition cv_free_dec (vr : variant) := free_dec drefs unit cerr [] tt vr.
+Definition c_dec_step := cv_dec_step as_found.
+Definition c_dec_run := dec_run unit dval drefs unit cerr [] tt as_found cdes.
+Definition c_free_dec := cv_free_dec as_found.
+Definition c_dsessions_run := dsessions_run unit dval drefs unit cerr [] tt as_found cdes.
 
 (* implicit type arguments for the generic part (declared last: this file spells them out) *)
 Arguments e_buf {RT CT ER WR}. Arguments e_off {RT CT ER WR}. Arguments e_simple {RT CT ER WR}.
